@@ -785,6 +785,9 @@ func (p *Parser[V]) Parse(str string, idents Identifiers[V]) (ast AST, err error
 			SetComments(p.allowComments).
 			SetComfort(p.comfort).
 			Start()
+	// Drain the token channel on every exit; otherwise the tokenizer goroutine
+	// stays blocked forever if parsing stops before the end of the input.
+	defer tokenizer.drain()
 
 	ast, err = p.parseLet(tokenizer, idents)
 	if err != nil {
